@@ -10,7 +10,55 @@ def run(ctx):
     r.explanation = ('No-panic half only: every panic site reachable from the FromStr implementations of NodeId, Identifier, ExpandedNodeId, '
                      'Guid, NumericRange and DateTime is discharged by a dominating guard or a reviewed disposition (regex / uuid / chrono '
                      'parsers are trusted through the panicking-API table). Print/parse equality relates the output language of a formatter '
-                     'to the input language of a regular expression and is not decided.')
+                     'to the input language of a regular expression and is not decided, except one structural clause: the escape replacements of the ExpandedNodeId namespace URI are inverted in reverse order by the parser.')
     r.rule_text = 'E1 panic-site inventory over the text parsers'
     run_e1(ctx, ENTRY)
+    escape_order(ctx)
+    r.floor('escape-order', 'escape_pairs', r.counts.get('escape_pairs', 0), 4)
     r.floor('E1-panic', 'reachable_bodies', r.counts.get('reachable_bodies', 0), 6)
+
+
+def escape_order(ctx, rule='escape-order'):
+    """ExpandedNodeId escapes '%' and ';' in the namespace URI when printing and undoes it when parsing. Sequential
+    string replacement only inverts when (a) no later printer replacement can touch the output of an earlier one and
+    (b) the parser applies the inverse replacements in the reverse order."""
+    import re
+    from .C01 import rpo
+    r, db = ctx.r, ctx.db
+    pb = db.find_bodies(r'^<types::expanded_node_id::ExpandedNodeId as std::fmt::Display>::fmt$')
+    qb = db.find_bodies(r'^<types::expanded_node_id::ExpandedNodeId as std::str::FromStr>::from_str$')
+    if not pb or not qb:
+        r.lost(rule, 'functions', 'Display / FromStr of ExpandedNodeId not found'); return
+    def pairs(b):
+        F = ctx.facts(b)
+        order = {x: i for i, x in enumerate(rpo(b))}
+        out = []
+        for c in sorted([c for c in b.calls() if c.bb in order and re.search(r'str.*::replace$', c.callee_raw) or c.callee.endswith('str::replace')], key=lambda c: order.get(c.bb, 0)):
+            def lit(op):
+                s = F.sym_operand(op)
+                while s[0] in ('ref', 'deref'):
+                    s = s[1]
+                if s[0] == 'k' and s[2] == 'char':
+                    return chr(int(s[1]))
+                if s[0] == 'k' and s[1].startswith('"'):
+                    return s[1][1:-1]
+                return None
+            if len(c.args) == 3:
+                out.append((lit(c.args[1]), lit(c.args[2])))
+        return out
+    P, Q = pairs(pb[0]), pairs(qb[0])
+    if len(P) < 2 or len(Q) < 2 or any(a is None or b_ is None for a, b_ in P + Q):
+        r.lost(rule, 'replacements', 'constant replace() sequences not recognised (printer %s, parser %s)' % (P, Q)); return
+    probs = []
+    for i in range(len(P)):
+        for j in range(i + 1, len(P)):
+            if P[j][0] in P[i][1]:
+                probs.append('the printer escapes %r after %r, but %r occurs in the escape %r written earlier' % (P[j][0], P[i][0], P[j][0], P[i][1]))
+    want = [(b_, a) for a, b_ in reversed(P)]
+    if Q != want:
+        probs.append('the parser undoes %s; the inverse of the printer sequence %s is %s' % (Q, P, want))
+    if probs:
+        r.fail(rule, 'ExpandedNodeId:namespace_uri', 'escaping of the namespace URI does not invert: ' + '; '.join(probs[:2]), loc=qb[0].loc)
+    else:
+        r.ok(rule, 'ExpandedNodeId:namespace_uri', 'printer escapes %s, parser undoes them in reverse order' % P, loc=qb[0].loc)
+    r.count('escape_pairs', len(P) + len(Q))
